@@ -47,6 +47,9 @@ def _solve_kwargs(cfg, theta, a, s, sp, so, w, ost, n_iter):
         kw["obs_data"] = OObsGen(so)
     if cfg["ost"]:
         kw["opt_state"] = ost
+    if cfg.get("verbose"):
+        # printing is an effect only: every value of the loop is the same with and without it
+        kw.update(verbose=True, print_loss_every=2)
     return kw
 
 
@@ -66,7 +69,8 @@ BASE_INPUTS = lambda so_: [Inp("theta", (P_,)), Inp("a", ()), Inp("s", (KS,)), I
 
 
 def cfg_tag(cfg, n_iter):
-    return f"[n_iter={n_iter},opt={cfg['opt']},param_gen={int(cfg['param'])},obs_gen={int(cfg['obs'])},tracked={cfg['tracked']},opt_state_given={int(cfg['ost'])}]"
+    return (f"[n_iter={n_iter},opt={cfg['opt']},param_gen={int(cfg['param'])},obs_gen={int(cfg['obs'])},tracked={cfg['tracked']},"
+            f"opt_state_given={int(cfg['ost'])}{',verbose' if cfg.get('verbose') else ''}]")
 
 
 def zeros(shape):
@@ -353,7 +357,7 @@ def native_get_batch_witness(sharding, seed):
 def configs(tier):
     base = dict(opt="opaque", param=False, obs=False, tracked="none", ost=False)
     cs = [base, dict(base, opt="sgd"), dict(base, param=True, obs=True, tracked="both"), dict(base, tracked="a", ost=True),
-          dict(base, param=True), dict(base, obs=True, opt="sgd", tracked="both")]
+          dict(base, param=True), dict(base, obs=True, opt="sgd", tracked="both"), dict(base, verbose=True, tracked="a")]
     return cs
 
 
@@ -368,6 +372,8 @@ def obligations(tier):
     for n_iter in n_iters:
         for i in range(n_iter + 1):
             obs.append(guard(configs(tier)[0], n_iter, i))
+    for i in range(n_iters[0] + 1):
+        obs.append(guard(configs(tier)[-1], n_iters[0], i))          # the same guard when it also prints why it stops
     for kind in ("ODE", "statio", "nonstatio"):
         obs.append(batch_size_check(kind))
     for sharding in (False, True):
